@@ -4,7 +4,8 @@ import sys, json, traceback
 sys.path.insert(0, '/verif/engine/symex')
 import driver, core, intrinsics, intrinsics2
 from values import *
-ir = json.load(open(sys.argv[1])); root = sys.argv[2]; seed = int(sys.argv[3]) if len(sys.argv) > 3 else 0
+ir = json.load(open(sys.argv[1])); root = sys.argv[2]; seed = int(sys.argv[3]) if len(sys.argv) > 3 and sys.argv[3].isdigit() else 0
+tab = dict((kv.split('=')[0], int(kv.split('=')[1])) for kv in sys.argv[3].split(',')) if len(sys.argv) > 3 and '=' in sys.argv[3] else None
 fq = [r for r in ir['roots'] if r.endswith('.' + root)][0]
 ex = driver.make_exec(ir, {}, 0)
 ex.build_base()
@@ -13,6 +14,8 @@ class P(dict):
     def get(self, key, default=0):
         return driver.vprng(seed, key)
 ex.pinned = P(); ex.pinned_prng = True; ex.trace = []
+if tab is not None:
+    ex.pinned = tab; ex.pinned_prng = False
 try:
     print(ex.run_path(ex.funcs[fq], []))
 except Exception:
